@@ -106,7 +106,9 @@ def run(tier, seed):
                                 res_key = 'c03:%s:%s:arduino:%s:%s' % (tag, scope, labels[zn][0], labels[zn][1]); dct = dict(dct, mutation=labels[zn][2])
                             rep.violation(res_key, dct)
                         for c_ in res.crashes:
-                            rep.violation('c03:%s:%s:arduino:crash' % (tag, scope), c_)
+                            m_ = re.search(r'zone (\S+)', str(c_.get('text', '')))
+                            zc = m_.group(1) if m_ else None
+                            rep.violation('c03:%s:%s:arduino:crash%s' % (tag, scope, (':%s:%s' % labels[zc][:2]) if labels and zc in labels else ''), c_)
                         cov['arduino_zones_swept'] += res.counts.get('zones', 0); cov['arduino_instants'] += res.counts.get('instants', 0)
         return tabs
 
@@ -177,6 +179,10 @@ def run(tier, seed):
     labels6 = {c[4]: (c[0], c[1], c[2], c[3]) for i, c in enumerate(g6) if i in k6}
     do_source('S6-granularity', '\n'.join(c[3] for i, c in enumerate(g6) if i in k6) + '\n', sorted(labels6), [(2000, 2050)], labels=labels6, stricts=(False, True),
               arduino={'step': 3600, 'win': 2 * 3600})
+    # ---- S7: policies with 3..12 transitions per year - what the compiler emits must fit the processors' buffers
+    d7 = mutants.dense_policies()
+    labels7 = {c[4]: (c[0], c[1], c[2], c[3]) for c in d7}
+    do_source('S7-dense', '\n'.join(c[3] for c in d7) + '\n', sorted(labels7), [(2000, 2050)], labels=labels7, arduino={'step': 3600, 'win': 2 * 3600})
     samples += [{'mutant': labels[z][2], 'seed': labels[z][0], 'source_text': labels[z][3]} for z in sorted(labels)[100:103]]
     rep.coverage.update(cov)
     rep.assumptions += [
